@@ -107,15 +107,3 @@ Theorem Bridge2_sum_over_c01_matches_no_interruption : forall X e st c rs s z,
 Proof. exact b2_sum_plain. Qed.
 Print Assumptions Bridge2_sum_over_c01_matches_no_interruption.
 
-(* the guard is needed: on a link that lists MATCHED_VAR after another target the two models
-   differ (Setvar.v follows rule.go: GetField of a target is evaluated when its turn comes, after
-   the matches of the earlier targets of the same link updated MATCHED_VAR; Match.v reads every
-   target of a link in the state before the link) *)
-Theorem Bridge2_same_link_matched_var_models_differ :
-  b2_link_ok ex2_mv_link = false /\
-  map sv_triple (snd (Setvar.eval_link (b2_op csem) (b2_env ex2_mv_req) (bl_sv csem ex2_mv_link) 0 st_init))
-    = [(str "ARGS_GET", str "a", str "x"); (str "MATCHED_VAR", [], str "x")] /\
-  map m_triple (Match.link_matches csem ord_id (build1 ex2_mv_req) (bl_m ex2_mv_link))
-    = [(str "ARGS_GET", str "a", str "x")].
-Proof. exact b2_same_link_matched_var. Qed.
-Print Assumptions Bridge2_same_link_matched_var_models_differ.
